@@ -82,6 +82,7 @@ func init() {
 	reg("errors.New", "returns a non-nil error", nonNilErr)
 	reg("fmt.Errorf", "returns a non-nil error", nonNilErr)
 	reg("fmt.Sprintf", "returns some string; no effects", func(c *callCtx) bool { c.freshResults("sprintf"); return true })
+	reg("strings.Join", "returns some string; no effects", func(c *callCtx) bool { c.freshResults("join"); return true })
 	reg("fmt.Sprint", "returns some string; no effects", func(c *callCtx) bool { c.freshResults("sprint"); return true })
 	reg("fmt.Fprintf", "no effects on program state", noop)
 	reg("fmt.Fprintln", "no effects on program state", noop)
@@ -169,6 +170,8 @@ func init() {
 		c.n.assume(mkEq(r.S, fmt.Sprintf("(exists ((j Int)) (and (<= 0 j) (< j (s.len %s)) (= %s %s)))", s0.S, at, c.args[1].S)))
 		// trigger-friendly consequence: no element equals v when the answer is false
 		c.n.assume(mkImp(mkNot(r.S), fmt.Sprintf("(forall ((j Int)) (! (=> (and (<= 0 j) (< j (s.len %s))) (not (= %s %s))) :pattern (%s)))", s0.S, at, c.args[1].S, at)))
+		// the same answer as the specification-level contains(s, v) (its axioms are stated only where a contract uses it)
+		c.n.assume(mkEq(r.S, x.inSlice(h, x.get(c.st, h).S, s0.S, c.args[1].S, es, false)))
 		c.res = []Term{r}
 		return true
 	})
@@ -327,6 +330,13 @@ func init() {
 		x.vc.declFun("uf_re_match", []string{SStr, SStr}, SBool)
 		return boolRes(c, app("uf_re_match", app("uf_re_pattern", c.args[0].S), c.args[1].S))
 	})
+	for _, m := range []string{"FindStringSubmatchIndex", "FindStringSubmatch", "FindStringIndex", "FindString", "FindAllString", "FindAllStringSubmatch", "FindAllStringIndex", "ReplaceAllString", "SubexpNames", "NumSubexp"} {
+		reg("(*regexp.Regexp)."+m, "returns some value (slices are new or nil); the regexp and the program state are not modified", func(c *callCtx) bool {
+			c.x.bumpAlloc(c.n, c.st)
+			c.freshResults("re_" + m)
+			return true
+		})
+	}
 	reg("(*regexp.Regexp).String", "the pattern text", func(c *callCtx) bool {
 		c.x.vc.declFun("uf_re_pattern", []string{SInt}, SStr)
 		c.res = []Term{{S: app("uf_re_pattern", c.args[0].S), Sort: SStr, T: c.resTypes[0]}}
